@@ -899,6 +899,7 @@ var fixedTypes = []string{
 	// the same suffix without a vendor directory, a directory whose name only contains "vendor", a vendored copy of another package
 	"vsuf.T", "msuf.T", "vpre.T", "xven.T", "*vsuf.T", "[]msuf.T", "func(vpre.T) xven.T", "vsuf.U", "vtmpl.Template", "*vtmpl.Template",
 	"map[string]vsuf.T", "func(lib.T, vsuf.T)", "vnest.T", "*vnest.T",
+	"[8]int", "[10]int", "[16]int", "[3]int", "[15]string", "[0]int", "[1]int",
 }
 
 // Near-miss pairs for REPEATED variables: two types that a careless identity test confuses (instantiations of one generic
@@ -969,7 +970,7 @@ var fixedPats = []string{
 	"pool.N", "pool.Str", "pool.I", "unsafe.Pointer", "chan int", "<-chan int", "chan<- int", "chan $x", "func(func($*_, $x), $*_, $x)",
 	"func($x, func($x) $x) func($x) $x", "struct{*$x; $*_; $x}", "struct{$*_; *$x; $*_; $x; $*_}", "func($*_, $x, $*_, *$x) ($*_, *$x)", "gen.L",
 	"(int)", "[](int)", "func(($x)) $x", "func($*_, [$n]$_, $*_) [$n]int", "func($*_, [$n]$x, $*_) [$n]$x", "func($*_, [$n]$_, $*_, [$n]$_)",
-	"func([$n]$_, $*_, [$n]$_)", "map[[$n]int][$n]string", "*gen.L", "[]gen.L", "func(gen.L) $x", "gen.Pair", "pool.A", "[]pool.A", "pool.AP", "pool.ATa", "func(pool.A) pool.A",
+	"func([$n]$_, $*_, [$n]$_)", "map[[$n]int][$n]string", "[010]int", "[0x10]int", "[0b11]int", "[1_0]int", "[0o17]$x", "[0]int", "[00]int", "*gen.L", "[]gen.L", "func(gen.L) $x", "gen.Pair", "pool.A", "[]pool.A", "pool.AP", "pool.ATa", "func(pool.A) pool.A",
 }
 
 func main() {
